@@ -256,4 +256,28 @@ Chunk(vals, k, n) == [i \in 1..n |-> vals[(k - 1) * n + i]]
 SplitFrames(vals, K, n) == [k \in 1..K |-> Chunk(vals, k, n)]
 ScaleFrames(fr, f) == [k \in 1..Len(fr) |-> [i \in 1..Len(fr[k]) |-> fr[k][i] * f]]
 DivFrames(fr, durs) == [k \in 1..Len(fr) |-> [i \in 1..Len(fr[k]) |-> fr[k][i] \div durs[k]]]
+
+\* ------------------------------------------------------------------ implementation-shaped: read-modify-write and fill from a source
+\* the element-wise operators of a stream-backed store go segment by segment: read the segment (by sinogram) from the
+\* stream, combine it, write it back (ProjData's generic operators, xapyb, sapyb)
+SegSBin(g, s, k, j) == << s, MinAx(g, s) + ((j - 1) \div (NV(g) * NT(g))), g.minView + (((j - 1) \div NT(g)) % NV(g)), g.minTang + ((j - 1) % NT(g)), k >>
+SegVBin(g, s, k, j) == << s, MinAx(g, s) + (((j - 1) \div NT(g)) % NA(g, s)), g.minView + ((j - 1) \div (NA(g, s) * NT(g))), g.minTang + ((j - 1) % NT(g)), k >>
+SegSize(g, s) == NA(g, s) * NV(g) * NT(g)
+StreamGetSegS(g, L, f, s, k) == [j \in 1..SegSize(g, s) |-> f[Pos(g, L, SegSBin(g, s, k, j)) + 1]]
+RECURSIVE StreamSapybSegs(_, _, _, _, _, _, _)
+StreamSapybSegs(g, L, f, todo, a, y, b) ==
+  IF todo = << >> THEN f
+  ELSE LET s == todo[1][1]
+           k == todo[1][2]
+           old == StreamGetSegS(g, L, f, s, k) IN
+       StreamSapybSegs(g, L, StreamSetSegS(g, L, f, s, k, [j \in 1..SegSize(g, s) |-> old[j] * a + y[SegSBin(g, s, k, j)] * b]), Tail(todo), a, y, b)
+StreamSapyb(g, L, f, a, y, b) == StreamSapybSegs(g, L, f, StdSegTofs(g), a, y, b)
+\* fill(const ProjData&): for every segment of the DESTINATION, the source's segment (by view) is set
+RECURSIVE StreamFillSourceSegs(_, _, _, _, _)
+StreamFillSourceSegs(g, L, f, todo, src) ==
+  IF todo = << >> THEN f
+  ELSE LET s == todo[1][1]
+           k == todo[1][2] IN
+       StreamFillSourceSegs(g, L, StreamSetSegV(g, L, f, s, k, [j \in 1..SegSize(g, s) |-> src[SegVBin(g, s, k, j)]]), Tail(todo), src)
+StreamFillSource(g, L, f, src) == StreamFillSourceSegs(g, L, f, StdSegTofs(g), src)
 =============================================================================
